@@ -6,6 +6,7 @@ mod c01;
 mod c03;
 mod c04;
 mod c05;
+mod c06;
 mod c12;
 mod curves;
 mod c14;
@@ -32,6 +33,7 @@ fn main() {
         "C03" => c03::run(&mut rng, n),
         "C04" => c04::run(&mut rng, n),
         "C05" => c05::run(&mut rng, n),
+        "C06" => c06::run(&mut rng, n),
         "C12" => {
             let slice = (seed % 1000) as usize;
             let thorough = args.iter().any(|a| a == "--thorough");
